@@ -270,6 +270,29 @@ class FeArray(np.ndarray):
         else:
             return self.dot(other)
 
+    def __rmatmul__(self, other) -> FeArrayALike:
+        # `constant @ field`: the plain array is a constant tensor, multiplied at each (e, p).
+        # Without this, numpy reads the trailing (nPg, i) axes of a vector field as a matrix.
+        other = np.asarray(other)
+        ndim1, ndim2 = other.ndim, self._ndim
+
+        if ndim1 == ndim2 == 1:
+            return FeArray.asfearray(np.einsum("i,...i->...", other, self))
+        elif ndim1 == ndim2 == 2:
+            return FeArray.asfearray(np.einsum("ij,...jk->...ik", other, self))
+        elif ndim1 == 1 and ndim2 == 2:
+            return FeArray.asfearray(np.einsum("i,...ij->...j", other, self))
+        elif ndim1 == 2 and ndim2 == 1:
+            return FeArray.asfearray(np.einsum("ij,...j->...i", other, self))
+        elif ndim1 in (1, 2, 4) and ndim2 in (1, 2, 4):
+            # as `field @ constant` does: single contraction of the last / first axes
+            subscript = FeArray._dot_subscript(ndim1, ndim2).replace("...", "", 1)
+            return FeArray.asfearray(np.einsum(subscript, other, self))
+        else:
+            raise ValueError(
+                f"constant @ field is not defined for tensors of order {ndim1} and {ndim2}."
+            )
+
     @staticmethod
     @lru_cache(maxsize=16)
     def _dot_subscript(ndim1: int, ndim2: int) -> str:
